@@ -505,7 +505,12 @@ func buildWorld(cs caseSpec) (*world, error) {
 	case "parallel-triggers":
 		var par []int
 		for fi, b := range bodies {
-			w.Ops = append(w.Ops, b...)
+			for _, op := range b {
+				// no earlier upload of a file schema blob: the packs start together
+				if op.isRemove() || !w.IsSchema[w.Universe[op.Blob].Ref] {
+					w.Ops = append(w.Ops, op)
+				}
+			}
 			if len(triggers[fi]) != 1 || triggers[fi][0].isRemove() {
 				return nil, fmt.Errorf("parallel-triggers needs files whose history ends with the schema upload")
 			}
